@@ -5,7 +5,8 @@ export GOFLAGS=-mod=mod GOPROXY=off GOSUMDB=off GOTOOLCHAIN=local
 wt="$1"; sd="$2"
 cd "$wt" || exit 3
 git checkout -q -- . ; git clean -fdq
-pkgdir=$(head -5 "$sd/demo_test.go" | grep -o '[a-z][a-zA-Z0-9_/]*/[a-zA-Z0-9_/]*' | head -1)
+pkgdir=$(head -5 "$sd/demo_test.go" | sed -n 's#^// *package directory: *\([A-Za-z0-9_./-]*\).*#\1#p' | head -1)
+[ -n "$pkgdir" ] || pkgdir=$(head -5 "$sd/demo_test.go" | grep -o '[a-z][a-zA-Z0-9_/]*/[a-zA-Z0-9_/]*' | head -1)
 [ -d "$pkgdir" ] || { echo "cannot find package dir in demo header: $pkgdir"; exit 3; }
 git apply "$sd/patch.diff" || { echo "patch does not apply"; exit 3; }
 go build ./... || { echo "BUILD FAILS"; exit 1; }
